@@ -78,6 +78,9 @@ func MavenDepTypeToDependency(typ dep.Type) (maven.Dependency, string, error) {
 		exs := strings.Split(e, "|")
 		for _, ex := range exs {
 			i := strings.Index(ex, ":")
+			if i < 0 {
+				return maven.Dependency{}, "", errors.New("invalid Maven exclusion in dep.Type")
+			}
 			result.Exclusions = append(result.Exclusions, maven.Exclusion{
 				GroupID:    maven.String(ex[:i]),
 				ArtifactID: maven.String(ex[i+1:]),
